@@ -324,7 +324,7 @@ func TestC15(t *testing.T) {
 
 	// cross-check through the public API: subscription identifier round trip
 	// and the remaining-length bytes of written PUBLISH frames
-	r.Rapid(t, "public-api", vf.N(2000, 200000), func(t *rapid.T) {
+	r.Rapid(t, "public-api", vf.N(2000, 1000000), func(t *rapid.T) {
 		v := rapid.Uint32Range(1, maxV-1).Draw(t, "v")
 		if rapid.Bool().Draw(t, "boundary") {
 			v = rapid.SampledFrom([]uint32{1, 127, 128, 16383, 16384, 2097151, 2097152, maxV - 1}).Draw(t, "vb")
